@@ -1,7 +1,7 @@
 #!/bin/bash
 # usage: verify_seed_lib.sh <Cxx> "<test targets>" "<test cmd>"
 # confirms seeds under /tmp/wt-<Cxx>/mutants/m*: clean demo passes; with patch: builds, tests pass, demo fails
-ID=$1; TARGETS=$2; TEST=$3; WT=/tmp/wt-$ID
+ID=$1; TARGETS=$2; TEST=$3; WT=${WT_OVERRIDE:-/tmp/wt-$ID}
 for M in $WT/mutants/m*; do
   cd $WT && git checkout -q -- .
   ninja -C $WT/_b -j8 photon_shared $TARGETS > /dev/null 2>&1
